@@ -52,6 +52,13 @@ fn dist_lt(a: &[u8; 32], b: &[u8; 32], key: &[u8; 32]) -> bool {
     false
 }
 
+#[allow(dead_code)]
+fn mk_node_seen(id: [u8; 32], secs: u64) -> NodeInfo {
+    let mut n = mk_node(id);
+    n.last_seen = SystemTime::UNIX_EPOCH + std::time::Duration::from_secs(secs);
+    n
+}
+
 fn mk_node(id: [u8; 32]) -> NodeInfo {
     NodeInfo {
         id: NodeId::from_bytes(id),
@@ -744,7 +751,7 @@ mod verif_search {
                     let p = r.pos();
                     let id = if r.below(25) == 0 { me } else if r.below(6) == 0 && !known.is_empty() { known[r.below(known.len() as u64) as usize] } else { id_in_bucket(&mut r, &me, p, low) };
                     let before = all_ids(&t);
-                    let ok = t.add_node(mk_node(id)).is_ok();
+                    let ok = t.add_node(mk_node_seen(id, r.below(1000))).is_ok();
                     let after = all_ids(&t);
                     let expect_present = id != me && (before.contains(&id) || ok);
                     if after.contains(&id) != expect_present || after.iter().filter(|x| !before.contains(x)).any(|x| *x != id) || before.iter().any(|x| !after.contains(x)) {
